@@ -55,9 +55,18 @@ SortedSeq(S) == IF S = {} THEN <<>> ELSE LET x == SetMin(S) IN <<x>> \o SortedSe
 RECURSIVE SetToSeq(_)
 SetToSeq(S) == IF S = {} THEN <<>> ELSE LET x == CHOOSE x \in S : TRUE IN <<x>> \o SetToSeq(S \ {x})
 
+\* A prefix whose score already exceeds mx is credited to the bucket mx + 1 with its own probability times the
+\* probability that the rest of the word consists of regular symbols (RegN / bd per position; a word holding a wildcard
+\* has no score in the integer matrix).  As originally coded the suffix was credited with probability one, which is the
+\* same thing unless the background gives the wildcard a frequency; BucketAsCoded = TRUE (substituted in the
+\* configuration of the negative control) restores that.
+BucketAsCoded == FALSE
+RegN(bn, K) == PlainSum([k \in 1..NS(K) |-> bn[k]], NS(K))
+
 \* distribution(mn, mx): returns [last |-> level M, first |-> level 1]
 Distribution(im, bn, bd, K, mn, mx) ==
   LET M == Len(im)
+      suffix(x, pos) == IF BucketAsCoded THEN x ELSE (x * Pow(RegN(bn, K), M - pos)) \div Pow(bd, M - pos)
       lo == Min2(0, mx + 1)
       hi == Max2(mx + 1, SuffixMax(im, K, 1))
       scale1 == Pow(bd, M - 1)
@@ -77,7 +86,7 @@ Distribution(im, bn, bd, K, mn, mx) ==
         IN [next |-> AddAll(EmptyLevel(lo, hi), [q \in 1..Len(regs) |->
                                <<regs[q][1] + im[pos][regs[q][2]], (prev.val[regs[q][1]] * bn[regs[q][2]]) \div bd>>], 1),
             bucket |-> LET os == SetToSeq(ovf) IN
-                       PlainSum([q \in 1..Len(os) |-> (prev.val[os[q][1]] * bn[os[q][2]]) \div bd], Len(os))]
+                       PlainSum([q \in 1..Len(os) |-> suffix((prev.val[os[q][1]] * bn[os[q][2]]) \div bd, pos)], Len(os))]
       Run[pos \in 1..M] == IF pos = 1 THEN [lv |-> first, bucket |-> 0]
                            ELSE LET st == Step(Run[pos - 1].lv, pos) IN [lv |-> st.next, bucket |-> Run[pos - 1].bucket + st.bucket]
       \* the overflow bucket max + 1 is inserted (with 0.0) into the last level before the propagation
